@@ -8,6 +8,7 @@
 #define SPECTRA_SYM_GEIGS_CHOLESKY_OP_H
 
 #include <Eigen/Core>
+#include <stdexcept>
 
 #include "../DenseSymMatProd.h"
 #include "../DenseCholesky.h"
@@ -45,8 +46,14 @@ public:
     /// \param Bop  The \f$B\f$ matrix operation object.
     ///
     SymGEigsCholeskyOp(const OpType& op, const BOpType& Bop) :
-        m_op(op), m_Bop(Bop), m_cache(op.rows())
-    {}
+        m_op(op), m_Bop(Bop)
+    {
+        // rows() and cols() of this operator report the size of B, so the solver's own
+        // shape test never sees A: it must be square and of the size of B
+        if (op.rows() != op.cols() || op.rows() != Bop.rows())
+            throw std::invalid_argument("SymGEigsCholeskyOp: A must be a square matrix of the same size as B");
+        m_cache.resize(op.rows());
+    }
 
     ///
     /// Move constructor.
